@@ -93,7 +93,7 @@ def run_case(case, sb):
     v = res["variables"]
     xs = v.get("xs", [])
     x_after = list(xs[1:]) + [v.get("x")]
-    ids = [ln[0] for ln in res["lines"]]
+    ids = [(ln[0] if ln else None) for ln in res["lines"]]
     problems = []
     if len(xs) != 3:
         problems.append({"xs": xs})
